@@ -124,8 +124,16 @@ func (c *Crew) init(ctx context.Context) error {
 	c.changed = make(map[string]*Changed, 8)
 	c.previous = make(map[string]string, 8)
 
+	// A due timer doesn't touch the crew or the timers: it hands the
+	// loop a function (see ProcessMsg) that does the bookkeeping in
+	// the loop's goroutine and returns the timer's message -- or
+	// nothing if the timer was cancelled while waiting for the loop.
 	f := func(ctx context.Context, te *TimerEntry) {
-		c.in <- te.Msg
+		select {
+		case c.in <- func(c *Crew) interface{} { return c.timers.fired(te) }:
+		case <-te.Ctl:
+		case <-ctx.Done():
+		}
 	}
 	c.timers = NewTimers(f)
 	c.timers.c = c
@@ -278,7 +286,9 @@ func (c *Crew) ProcessMsg(ctx context.Context, msg interface{}) (*Result, error)
 		c.Logf("ProcessMsg at %s (%d)", JS(msg), len(pending))
 
 		if f, is := msg.(func(*Crew) interface{}); is {
-			msg = f(c)
+			if msg = f(c); msg == nil {
+				continue
+			}
 		}
 
 		walkeds, err := c.RunMachines(ctx, msg)
